@@ -23,9 +23,38 @@ pub struct Outcome {
     #[serde(skip)]
     pub trace: Vec<String>,
     pub entropy_calls: u64,
+    #[serde(skip)]
+    pub write_sites: Vec<String>,
 }
 
 static RUN_COUNTER: AtomicU64 = AtomicU64::new(0);
+/// crash injection: unwind before the CRASH_AT-th storage write (0 = disarmed)
+static CRASH_AT: AtomicU64 = AtomicU64::new(0);
+static WRITES: AtomicU64 = AtomicU64::new(0);
+static HOOK_INSTALLED: AtomicBool = AtomicBool::new(false);
+thread_local! {
+    static WRITE_SITES: std::cell::RefCell<Vec<&'static str>> = std::cell::RefCell::new(Vec::new());
+}
+
+pub fn disarm_crash() {
+    CRASH_AT.store(0, Ordering::SeqCst);
+}
+
+fn install_write_hook() {
+    if HOOK_INSTALLED.swap(true, Ordering::SeqCst) {
+        return;
+    }
+    crate::verif_hooks::install(Some(std::sync::Arc::new(|p| {
+        if let crate::verif_hooks::Point::BeforeWrite(site) = p {
+            let n = WRITES.fetch_add(1, Ordering::SeqCst) + 1;
+            let _ = WRITE_SITES.try_with(|w| w.borrow_mut().push(site));
+            let at = CRASH_AT.load(Ordering::SeqCst);
+            if at != 0 && n == at {
+                panic!("VERIF-CRASH {}", site);
+            }
+        }
+    })));
+}
 static LOG_ON: AtomicBool = AtomicBool::new(false);
 
 struct DiscardLogger;
@@ -104,8 +133,20 @@ pub fn execute(plan: &Plan, verbose: bool) -> Outcome {
             log::set_max_level(log::LevelFilter::Off);
         }
         let dir = fresh_dir();
+        install_write_hook();
+        WRITES.store(0, Ordering::SeqCst);
+        WRITE_SITES.with(|w| w.borrow_mut().clear());
+        let crash_at = plan
+            .flags
+            .iter()
+            .find_map(|f| f.strip_prefix("crash_at=").and_then(|v| v.parse::<u64>().ok()))
+            .unwrap_or(0);
+        CRASH_AT.store(crash_at, Ordering::SeqCst);
         let mut sim = Sim::new(plan.clone(), dir.clone(), verbose);
         sim.run();
+        CRASH_AT.store(0, Ordering::SeqCst);
+        sim.stat_add("writes_total", WRITES.load(Ordering::SeqCst));
+        let sites: Vec<&'static str> = WRITE_SITES.with(|w| w.borrow().clone());
         let out = Outcome {
             seed: plan.seed,
             events: sim.events,
@@ -117,6 +158,7 @@ pub fn execute(plan: &Plan, verbose: bool) -> Outcome {
             coverage: std::mem::take(&mut sim.coverage),
             trace: sim.trace.take().unwrap_or_default(),
             entropy_calls: entropy::calls(),
+            write_sites: sites.iter().map(|s| s.to_string()).collect(),
         };
         drop(sim);
         let _ = std::fs::remove_dir_all(&dir);
